@@ -49,18 +49,22 @@ class FeatureMonitor(taps.Monitor):
         if isinstance(x, np.ndarray):
             if x.dtype.kind != "f" or not np.isfinite(x).all():
                 return None
-            return {"kind": "array", "x": x.copy()}
+            return {"kind": "array", "x": x.copy(), "argd": digest([list(args[1:]), dict(kw)])}
         if not is_image(x) or x.pixels.dtype.kind != "f" or not np.isfinite(x.pixels).all():
             return None
         from menpo.image import BooleanImage
         if isinstance(x, BooleanImage):
             return None
-        return {"kind": "image", "d": digest(x), "px": x.pixels.copy(), "rest": args[1:], "kw": dict(kw)}
+        import copy
+        return {"kind": "image", "d": digest(x), "px": x.pixels.copy(), "rest": copy.deepcopy(args[1:]), "kw": copy.deepcopy(dict(kw)),
+                "argd": digest([list(args[1:]), dict(kw)])}
 
     def post(self, ctx, st, args, kw, r, exc):
         import menpo.image as mi
         x = args[0]
         f = self.fname
+        if digest([list(args[1:]), dict(kw)]) != st["argd"]:
+            ctx.fail("feature_modified_one_of_its_arguments", cls=f, mech=",".join(sorted(kw)) or "positional")
         if st["kind"] == "array":
             if not np.array_equal(x, st["x"]):
                 ctx.fail("feature_modified_its_input_array", cls=f)
@@ -186,6 +190,12 @@ def w_features(ctx, rng, i):
             opts.update({"histograms": int(rng.integers(1, 4)), "orientations": int(rng.integers(2, 9))})
         if rng.random() < 0.3:
             opts["normalization"] = ["l1", "l2", "daisy", "off"][rng.integers(0, 4)]
+        if rng.random() < 0.3:
+            # explicit ring geometry (option lists are reused for the array call below, as a user's settings dict would be)
+            rr = sorted(set(int(v) for v in rng.integers(1, radius + 1, rings)))
+            rings = len(rr)
+            opts = {"step": step, "ring_radii": rr, "sigmas": [float(v) for v in rng.uniform(0.5, 2.5, rings + 1)]}
+            radius = int(np.ceil(rr[-1]))
         C = int(rng.integers(1, 3))
         dtype = np.float64
     else:
